@@ -404,3 +404,7 @@ META = {
     'technique': 'static analysis: constant folding of the context / complement tables, path enumeration of the polarity table, linear forms of context and dove-safe windows, tag wiring set comparison',
     'design_ref': 'DESIGN.md section 5, C14',
 }
+
+
+from . import shared as _shared
+_shared.register('C14', 'C14')
